@@ -22,6 +22,133 @@ TABLE = {
             "well-formed signature. Sampling, not proof.",
             "trusts the simulated device's framing (taken from firmware sources), the "
             "python-bitcoinlib stand-in (validated at setup) and Hypothesis", "5/C01"),
+    "C02": ("exploration",
+            "property-based testing: field-aware mutation of documented requests; differential "
+            "oracle against a classifier transcribed from docs/protocol*.md",
+            "Mutated and arbitrary JSON requests in both protocol modes are classified by the real "
+            "protocol objects; the observed verdict (error code, or 'accepted' = an APDU reached "
+            "the simulated device) must lie in the verdict set the documentation allows, and a "
+            "request that is not accepted must cause no exchange. Cases the docs do not decide "
+            "are counted as ambiguous and not asserted.",
+            "trusts the transcription of the docs in vlib/spec.py", "5/C02"),
+    "C03": ("exploration",
+            "property-based testing and fuzzing of request lines (Hypothesis histories, real TCP "
+            "sockets, coverage-guided atheris tier) with the reply contract as oracle",
+            "Histories of hostile request lines are fed to the real request handler (and to the "
+            "real TCPServer over sockets); every line must get exactly one JSON-object line with "
+            "an integer errorcode, the handler must not signal shutdown, and a following "
+            "connection must be served. Sampling of an infinite input space.",
+            "device keeps to its protocol (simulated device without faults)", "5/C03"),
+    "C04": ("fault_enumeration",
+            "exhaustive fault enumeration: every (command, exchange step, status word / timeout / "
+            "link error / unexpected opcode) cell against documented code sets and a "
+            "firmware-derived cause table",
+            "The thorough tier enumerates the complete finite matrix (about 4.5 million cells) on "
+            "16 processes; each cell injects the outcome at that exchange of the real stack and "
+            "checks the reply code against docs/protocol.md, the success <=> device-success "
+            "rule, the named-cause table and no-shutdown inside the device error range. "
+            "Exhaustive relative to the simulated device and the nominal requests.",
+            "cause table transcribed from firmware headers; fault shapes are those ledgerblue "
+            "raises", "5/C04"),
+    "C05": ("exploration",
+            "property-based testing against a simulated device; oracle = harness RLP / Keccak / "
+            "SHA-256-midstate reference implementations",
+            "Generated header lists with brothers and device plans are sent through the real "
+            "advanceBlockchain / updateAncestorBlock; what the device reassembled (count, order, "
+            "bytes, metadata, sorted brothers) is compared with values computed by independent "
+            "reference code; reply 0/1 <=> device total/partial success.",
+            "trusts the harness's RLP, Keccak (pycryptodome) and SHA-256 compression references", "5/C05"),
+    "C06": ("exploration",
+            "property-based testing with construction-known validity and an independent "
+            "pure-Python ECDSA verifier as differential oracle",
+            "Version-1 certificates over arbitrary element graphs with 0..2 corruptions; expected "
+            "verdict map from an independent chain walk (ecdsa package + explicit tweak) must "
+            "equal validate_and_get_values exactly.",
+            "trusts the ecdsa package as independent verifier; high-S malleation not asserted", "5/C06"),
+    "C07": ("exploration",
+            "property-based testing over freshly built X.509 / SGX quote chains with a fake clock; "
+            "validity known by construction and re-checked by independent verification",
+            "Generated chains, validity windows and single-point corruptions; quote target valid "
+            "iff every link verifies, with exact values when valid.",
+            "trusts cryptography/ecdsa as independent verifiers and the harness's SGX structure "
+            "builder", "5/C07"),
+    "C08": ("exploration",
+            "property-based testing of the verify commands: genuine vs re-signed semantic variants; "
+            "oracle = success iff genuine, printed values = generated values",
+            "Generated (attestation, public keys, root) triples for Ledger and SGX; variants differ "
+            "in exactly one semantic datum and are re-signed so the chain stays valid.",
+            "trusts the harness's certificate builders", "5/C08"),
+    "C09": ("exploration",
+            "exhaustive enumeration of the bring-up configuration grid against a small reference "
+            "model",
+            "Every configuration of the grid is run through the real initialize_device on the "
+            "simulated device; observed (unlock commands sent, serves) must equal the model; a "
+            "sample per outcome class is confirmed through the real TCPServer.",
+            "the reference model transcribes the property statement", "5/C09"),
+    "C10": ("fault_enumeration",
+            "stateful property-based testing with crash and file-fault injection; invariants over "
+            "durable state",
+            "Histories of start-ups with device reactions, file faults and crashes at every step "
+            "boundary; invariants (a)-(e) of the design after every step; complete enumeration of "
+            "single-start scenarios.",
+            "crashes are modelled at middleware step boundaries, not inside the OS", "5/C10"),
+    "C11": ("fault_enumeration",
+            "exhaustive link-fault enumeration plus generated two-fault histories; oracle on reply "
+            "codes and on the transport event log",
+            "Every (command, exchange index, fault kind, reconnection outcome, follow-up) cell; "
+            "the faulted request must get -905 (-2), the next one must close, reconnect and repeat "
+            "bring-up before any command APDU.",
+            "faults are the exception shapes of the real transports", "5/C11"),
+    "C12": ("exploration",
+            "schedule exploration: generated multi-client scripts with injected device-side delays "
+            "against the real TCPServer over sockets; invariant = no overlapping / interleaved "
+            "exchanges, own reply",
+            "2..16 client threads; the device log tags each exchange with the request being "
+            "served; invariants are schedule-independent for a serial server, so no false alarms; "
+            "detection of a concurrent server is probabilistic.",
+            "the OS scheduler is not controlled", "5/C12"),
+    "C13": ("exploration",
+            "property-based testing: random device states, field-by-field equality oracle",
+            "Random device states and heartbeat material; every reply field must equal the datum "
+            "the simulated device holds for it.",
+            "simulated device framing from firmware sources", "5/C13"),
+    "C14": ("exploration",
+            "property-based testing on transaction ASTs: structural oracle, idempotence and pair "
+            "metamorphic relations",
+            "Generated ASTs with every push encoding; unsigned form compared structurally with the "
+            "AST; unsign(unsign(x)) == unsign(x); pairs differing in non-final pushes; undecodable "
+            "/ empty script => -102 and no APDU.",
+            "python-bitcoinlib stand-in; expectations computed on the AST by the harness", "5/C14"),
+    "C15": ("exploration",
+            "property-based testing of full command sequences against a simulated genuine device; "
+            "round-trip and single-point alteration oracle",
+            "onboard -> attestation -> pubkeys -> verify (Ledger) and attestation -> verify (SGX) "
+            "run for real against generated devices; any alteration of signed data, signatures, "
+            "certificates or root must make gathering or verification fail.",
+            "simulated device and attestation key hierarchy built by the harness", "5/C15"),
+    "C16": ("exploration",
+            "property-based testing and coverage-guided fuzzing of certificate documents; oracle = "
+            "termination, harness graph walk, verdict per target, save/load round trip",
+            "Documents built from element graphs with 0..2 defects plus genuine certificates; "
+            "generator-quality gates fail closed.",
+            "30 s watchdog stands for non-termination", "5/C16"),
+    "C17": ("exploration",
+            "property-based testing: text/digest reference, cross-library signature verification, "
+            "APDU order oracle",
+            "Signer hashes, iterations and signature lists against message format, signapp "
+            "output, save/load and the authorize APDU sequence.",
+            "Keccak from pycryptodome; libsecp256k1 vs ecdsa cross-check", "5/C17"),
+    "C18": ("exploration",
+            "exhaustive enumeration of device state x operator input grid against a precondition "
+            "predicate",
+            "Every combination is run through the real admin commands; destructive APDUs may "
+            "appear only when the reference predicate allows, and then the effect is checked.",
+            "the predicate transcribes the property statement", "5/C18"),
+    "C19": ("exploration",
+            "property-based testing: Intel-HEX writer oracle, cross-library signature verification",
+            "Generated images written with arbitrary record layouts; hash must equal SHA-256 over "
+            "the harness's area list; one-time signatures verify under the written key.",
+            "harness Intel-HEX writer", "5/C19"),
 }
 
 NOT_BUILT = "check not built yet in this round (planned in DESIGN.md section 5); not claimed"
